@@ -220,6 +220,17 @@ def main(argv=None):
     core.guarded(rep, text, check_model, rep, drv, gen, rng, m_, text, c_, fixed_points=pts)
     rep.case(key=text, nontrivial=True)
     rep.count("directed_sign_models")
+    # directed: equality tests between inputs and literals, at equality and a few 1e-6 away (equal means equal: a tolerance
+    # such as isclose's 1e-5 picks the wrong branch)
+    text = ("states(v=1, w=0.5)\nparameters(c=2)\ndv_dt = Conditional(Eq(v, 1), 10, 20) + Conditional(Not(Eq(w, 0.5)), 1, 2)\n"
+            "dw_dt = Conditional(Eq(c, 2), v, -v) + Conditional(Eq(v, w), 5, 7)\n")
+    c_ = pipeline.Case(drv, text)
+    m_ = textmodel.model_from_items(c_.captured)
+    pts = [{"t": 0.0, "dt": 0.1, "states": {"v": sv, "w": sw}, "params": {"c": sc}}
+           for sv in (1.0, 1.000004, 0.999996, 0.5) for sw in (0.5, 0.500002, 1.000004) for sc in (2.0, 2.000008)]
+    core.guarded(rep, text, check_model, rep, drv, gen, rng, m_, text, c_, fixed_points=pts)
+    rep.case(key=text, nontrivial=True)
+    rep.count("directed_equality_models")
     for i in range(n):
         kw = {}
         if i % 5 == 1:
